@@ -57,7 +57,8 @@ fn build(c: &'static Coin, case: &Case) -> ChainBuilder {
         let h = case.base + i as u64;
         let reward = base_reward(h);
         let v = if case.cb_delta == i64::MIN { 0 } else { (reward as i64 + case.cb_delta).max(0) as u64 };
-        let mut txs = vec![coinbase(h, 5, vec![pay(1, v), pay(2, 1234), TxOut { value: 0, script: refmodel::script::op_return(format!("block {}", h).as_bytes()) }])];
+        let filler_out = if case.mix == 9 { vec![TxOut { value: 1, script: vec![0x51; (i * 3) % 3000 + i / 4] }] } else { vec![] };
+        let mut txs = vec![coinbase(h, 5, [vec![pay(1, v), pay(2, 1234), TxOut { value: 0, script: refmodel::script::op_return(format!("block {}", h).as_bytes()) }], filler_out].concat())];
         txs.extend(mix_txs(case.mix, h));
         if case.types_world && i == 0 {
             let scripts = representatives(c, true);
@@ -114,6 +115,10 @@ pub fn run() -> Report {
         for n in [2usize, 3, 4] {
             cases.push(Case { coin: cn, base: 0, times: (0..n).map(|i| 1000 + 600 * i as u32).collect(), mix: 1, cb_delta: 0, types_world: false, label: "block sizes summing beyond 2^32" });
         }
+    }
+    // long chains (more items than any plausible chunk / page size of an accumulator): sizes grow with height, gaps vary
+    for n in [4097usize, 5000] {
+        cases.push(Case { coin: "bitcoin", base: 0, times: (0..n).map(|i| 1_000_000 + (i as u32) * 600 + ((i * i) % 977) as u32).collect(), mix: 9, cb_delta: 3, types_world: false, label: "long chain" });
     }
     for cn in ["testnet3", "dogecoin", "namecoin"] {
         cases.push(Case { coin: cn, base: 0, times: vec![1000, 2000, 1500], mix: 2, cb_delta: 7, types_world: true, label: "every script type" });
